@@ -114,8 +114,20 @@ func (e *Emulator) Step() (*Step, error) {
 		// moved in the address space, we are certain that all addresses
 		// (including constants pointing to the following instruction)
 		// are still valid.
+		//
+		// The only exception is an instruction writing address of the
+		// following instruction to the instruction pointer. As such a
+		// write is not considered a jump by the code model, the
+		// instruction can be moved and then it has to continue with the
+		// instruction following its current position.
 		if rStore, ok := ef.(expr.RegStore); ok && rStore.Key() == expr.IPKey {
 			jumped = true
+
+			target, _ := expr.ConstUint[model.Addr](rStore.Value().(expr.Const))
+			if target == ins.OrigAddr()+ins.Len() {
+				next := expr.ConstFromUint(ins.End())
+				ef = expr.NewRegStore(next, expr.IPKey, rStore.Width())
+			}
 		}
 
 		s.recordOutput(ef)
